@@ -190,11 +190,11 @@ From DG Require Import ThriftWireProofs T2JBytes T2JBytesProofs.
    returns the canonical text of the spec tree and exactly r, or fails when the spec has no text — for every choice fd of
    the lexeme written for a finite double (check 304 runs the walk with a marker for fd) *)
 Theorem C03_t2j_walk_refines_spec_gen : forall fd o v d n r,
-  o_value_mapping o = false -> o_write_default o = false -> o_write_required o = false ->
+  o_write_default o = false -> o_write_required o = false ->
   wf v = true -> conforms v d = true -> desc_wf d = true -> (depth v <= n)%nat -> (depth v <= max_skip_depth)%nat ->
   t2j_walk_gen fd o n d (encode v ++ r) =
-  match spec_text_fd fd (json_of o d v) with Some txt => Some (txt, r) | None => None end.
-Proof. intros fd o v d n r Hvm Hwd Hwr. exact (walk_refines fd o Hvm Hwd Hwr v d n r). Qed.
+  match spec_text_p fd (json_of o d v) with Some txt => Some (txt, r) | None => None end.
+Proof. intros fd o v d n r Hwd Hwr. exact (walk_refines fd o Hwd Hwr v d n r). Qed.
 Print Assumptions C03_t2j_walk_refines_spec_gen.
 
 (* with the spec's lexeme (the exact decimal of the bits): the text is json_print (to_json e), the printer of C03_expected_tree_parses *)
@@ -228,15 +228,20 @@ Proof.
 Qed.
 Print Assumptions C03_t2j_walk_refines_specw.
 
-(* the same for every double lexeme function whose lexemes need no escaping between quotes (needed only under value mapping,
-   where a js_conv double is printed as a JSON string) *)
+(* the same for EVERY double lexeme function fd, with the direct printer jexp_print of model/T2JBytes.v (a quoted js_conv
+   double is the lexeme between quotes; check 304 runs the walk with a marker for fd); with escape-free lexemes jexp_print is
+   the canonical print of the JSON AST *)
 Theorem C03_t2j_walk_refines_specw_gen : forall fd o v d n r,
-  (o_value_mapping o = true -> forall b, forallb plain (fd b) = true) ->
   wf v = true -> conforms v d = true -> desc_wf d = true -> (depth v <= n)%nat -> (depth v <= max_skip_depth)%nat ->
   t2j_walk_gen fd o n d (encode v ++ r) =
-  match spec_text_fd fd (json_ofw o d v) with Some txt => Some (txt, r) | None => None end.
-Proof. intros fd o v d n r Hfd. exact (walk_refines_w fd o Hfd v d n r). Qed.
+  match spec_text_p fd (json_ofw o d v) with Some txt => Some (txt, r) | None => None end.
+Proof. intros fd o v d n r. exact (walk_refines_w fd o v d n r). Qed.
 Print Assumptions C03_t2j_walk_refines_specw_gen.
+
+Theorem C03_jexp_print_is_canonical : forall fd, (forall b, forallb plain (fd b) = true) ->
+  forall e, jexp_print fd e = json_print (to_json_fd fd e).
+Proof. exact jexp_print_json. Qed.
+Print Assumptions C03_jexp_print_is_canonical.
 
 (* the root (do): with thrift base extraction too — a response-base field is skipped and yields no member — the text is that
    of the root spec t2j_specw (ConvertException off) *)
@@ -321,21 +326,19 @@ Print Assumptions C03_text_agrees_plain.
 From DG Require Import T2JBytesTok.
 
 Theorem C03_check304_sound : forall o v d n r m r' out,
-  o_value_mapping o = false -> o_write_default o = false -> o_write_required o = false ->
   wf v = true -> conforms v d = true -> desc_wf d = true -> desc_ok d = true ->
   (depth v <= n)%nat -> (depth v <= max_skip_depth)%nat ->
   t2j_walk_gen fd_mark o n d (encode v ++ r) = Some (m, r') ->
   text_agrees (S (length m)) m out = true ->
-  exists e, json_of o d v = TOk e /\ jexp_finite e = true /\ agrees (jtoks e) out.
+  exists e, json_ofw o d v = TOk e /\ jexp_finite e = true /\ agrees (jtoks e) out.
 Proof. exact check304_sound. Qed.
 Print Assumptions C03_check304_sound.
 
 Theorem C03_walk_text_tokens : forall o v d n r txt r',
-  o_value_mapping o = false -> o_write_default o = false -> o_write_required o = false ->
   wf v = true -> conforms v d = true -> desc_wf d = true ->
   (depth v <= n)%nat -> (depth v <= max_skip_depth)%nat ->
   t2j_walk n o d (encode v ++ r) = Some (txt, r') ->
-  exists e, json_of o d v = TOk e /\ txt = render f64_exact_lexeme (jtoks e).
+  exists e, json_ofw o d v = TOk e /\ txt = render f64_exact_lexeme (jtoks e).
 Proof. exact walk_text_tokens. Qed.
 Print Assumptions C03_walk_text_tokens.
 
